@@ -253,6 +253,69 @@ def clears_after_success(cls):
     return out
 
 
+def shared_flag_consistency(cls, dirty):
+    """for every dirty flag: the functions that DIRECTLY test it and reset it; ok = each of them, before the reset,
+    UNCONDITIONALLY runs the same recomputation (the same set of self-method calls / cache assignments at the block
+    level of the reset — a recomputation nested in a further `if` does not count).  A flag shared by several getters
+    (SiteModel.rates / probabilities) may only be reset by a getter that recomputes everything it guards.
+    -> [(flag, [function names], ok)]"""
+    per_flag = {}
+    seen = set()
+    for k in inspect.getmro(cls):
+        if not k.__module__.startswith("torchtree"):
+            continue
+        for name, attr in k.__dict__.items():
+            if name in seen:
+                continue
+            fn = attr if inspect.isfunction(attr) else (attr.fget if isinstance(attr, property) else None)
+            if fn is None:
+                continue
+            seen.add(name)
+            try:
+                node = _fn_ast(fn)
+            except (Unrec, OSError, TypeError, SyntaxError, IndentationError):
+                continue
+
+            def is_clear(st, fl):
+                return (isinstance(st, ast.Assign) and len(st.targets) == 1 and _is_self_attr(st.targets[0], fl)
+                        and isinstance(st.value, ast.Constant) and st.value.value is False)
+
+            def work(stmts, fl):
+                """names recomputed unconditionally in a block before the reset of fl, or None if no reset there"""
+                pos = [i for i, st in enumerate(stmts) if is_clear(st, fl)]
+                if not pos:
+                    return None
+                names = set()
+                for st in stmts[:pos[0]]:
+                    if isinstance(st, (ast.If, ast.For, ast.While, ast.Try, ast.With)):
+                        continue
+                    for sub in ast.walk(st):
+                        if isinstance(sub, ast.Call) and _is_self_attr(sub.func):
+                            names.add(sub.func.attr + "()")
+                        if isinstance(sub, ast.Assign):
+                            for t in sub.targets:
+                                if _is_self_attr(t):
+                                    names.add(t.attr)
+                return names
+
+            for sub in ast.walk(node):
+                if not isinstance(sub, ast.If):
+                    continue
+                fl = _flag_of_test(sub.test)
+                if fl is None or fl not in dirty:
+                    continue
+                negated = not _is_self_attr(sub.test)
+                w = work(node.body, fl) if negated else work(sub.body, fl)
+                if w is not None:
+                    per_flag.setdefault(fl, []).append((name, w))
+    out = []
+    for fl, lst in per_flag.items():
+        sets = [w for _, w in lst]
+        ok = all(len(w) > 0 for w in sets) and all(w == sets[0] for w in sets)
+        out.append((fl, [n for n, _ in lst], ok))
+    return out
+
+
 def explicit_regs(cls):
     p = m = False
 
@@ -369,6 +432,7 @@ def describe(cls, bases):
         "guards": gs,
         "appends": listener_append_unconditional(cls),
         "clears_ok": clears_after_success(cls),
+        "shared": shared_flag_consistency(cls, set(flags)),
     }
 
 
@@ -432,6 +496,12 @@ def translate(repo: Path = None):
                       for d in table for fn, fl, okc in d["clears_ok"]
                       if fl in d["flags"])  # dirty flags: the ones a handler sets
         + "\n]\n\n"
+        "/-- (class, dirty flag, every function that directly tests and resets it runs, unconditionally and before the\n"
+        "    reset, the same recomputation) -/\n"
+        "def sharedFlags : List (String × String × Bool) :=\n"
+        + "\n".join(f"  ({lean_str(d['name'])}, {lean_str(fl)}, {'true' if okc else 'false'}) ::   -- " + ", ".join(fns)
+                      for d in table for fl, fns, okc in d["shared"])
+        + "\n  []\n\n"
         "def find (n : String) : ClassSpec :=\n"
         "  (classes.find? fun c => c.name == n).getD { (default : ClassSpec) with name := \"?\", "
         "onParam := ⟨false, [], .raise⟩, onModel := ⟨false, [], .raise⟩ }\n\n"
